@@ -130,8 +130,12 @@ package store
 //@   property C07 C15
 //@   noframe
 //@   havoc $Complete $CacheDropped $LinkGone $FdOpen $RmErr $CreateErr $Linked $ValidOK $Revalidated $Q4Clean
-//@   requires s != nil && !$Complete && !$FdOpen && !$Revalidated
-//@   ensures err == nil && $Revalidated ==> $Q4Clean
+//@   requires s != nil && !$Complete && !$FdOpen && !$Revalidated && !$Q4Clean
+// (whether the ODS file was there already or was just written: the Q4 file of an interrupted ODS+Q4 put may
+// have been created before its ODS file, so a fresh ODS file says nothing about leftovers. The height is
+// linked only after the leftover was dealt with - a crash in between must not leave a link to a partial Q4.)
+//@   ensures err == nil ==> $Q4Clean
+//@   callpre Store).linkHeight: $Q4Clean
 //@   callpre Store).linkHeight: $Complete
 //@   ensures err == nil ==> $Complete
 //@   ensures result0 ==> err == nil
@@ -148,7 +152,7 @@ package store
 //@   property C07 C15
 //@   noframe
 //@   havoc $Complete $CacheDropped $LinkGone $FdOpen $RmErr $CreateErr $Linked $AccOpen $ValidOK $StreamEnded $Revalidated $Q4Clean
-//@   requires s != nil && roots != nil && !$Complete && !$FdOpen && $EmptyComplete && !$Revalidated
+//@   requires s != nil && roots != nil && !$Complete && !$FdOpen && $EmptyComplete && !$Revalidated && !$Q4Clean
 //@   callpre Store).linkHeight: $arg1.IsEmptyEDS()
 //@   callpre Store).createODSQ4File: writeQ4 && $arg3 == height && $arg2 == roots && $arg1 == square
 //@   callpre Store).createODSFile: !writeQ4 && $arg3 == height && $arg2 == roots && $arg1 == square
@@ -157,14 +161,14 @@ package store
 //@ func (*Store).PutODSQ4
 //@   property C07 C15
 //@   noframe
-//@   requires s != nil && roots != nil && !$Complete && !$FdOpen && $EmptyComplete && !$Revalidated
+//@   requires s != nil && roots != nil && !$Complete && !$FdOpen && $EmptyComplete && !$Revalidated && !$Q4Clean
 //@   callpre Store).put: $arg5 && $arg3 == height && $arg2 == roots && $arg4 == square
 //@   ensures err == nil ==> $Complete || share.DataHash(dahHash(deref(roots))).IsEmptyEDS()
 
 //@ func (*Store).PutODS
 //@   property C07 C15
 //@   noframe
-//@   requires s != nil && roots != nil && !$Complete && !$FdOpen && $EmptyComplete && !$Revalidated
+//@   requires s != nil && roots != nil && !$Complete && !$FdOpen && $EmptyComplete && !$Revalidated && !$Q4Clean
 //@   callpre Store).put: !$arg5 && $arg3 == height && $arg2 == roots && $arg4 == square
 //@   ensures err == nil ==> $Complete || share.DataHash(dahHash(deref(roots))).IsEmptyEDS()
 
